@@ -195,7 +195,10 @@ pub fn eval_case(w: &mut Worker, c: &Case) -> Result<Outcome, String> {
 pub fn run(tier: Tier, seed: u64, findings: &Findings) -> i32 {
     let started = Instant::now();
     let cfg = RunCfg { prop: "C06", tier, seed };
-    let wc = gen::wxml::WxmlCfg::new(tier.pick(2, 3), tier.pick(2, 3));
+    let mut wc = gen::wxml::WxmlCfg::new(tier.pick(2, 3), tier.pick(2, 3));
+    // slot value scopes: dynamic-slot components of the stub DOM and `slot:` references on their children
+    wc.slot_refs = true;
+    wc.dyn_tags = true;
     let check = C06 { cfg: wc, max_steps: 4 };
     let mut report = engine::Report::default();
     report.merge(super::run_regress(&check, &cfg, findings));
